@@ -2,6 +2,7 @@
 //! hooks on) on generated cases and writes (a) Coq case files evaluated against the Gallina model
 //! and (b) a JSON-lines file for the exact-rational oracles.
 mod util;
+mod c19;
 mod flat;
 mod c15;
 mod c14;
@@ -34,6 +35,7 @@ fn main() {
                 "C02flat" => flat::run(seed, n, out, 2),
                 "C03flat" => flat::run(seed, n, out, 3),
                 "C13flat" => flat::run(seed, n, out, 13),
+                "C19" => c19::run(seed, n, out),
                 _ => { eprintln!("unknown property {}", prop); std::process::exit(2) }
             }
         }
@@ -48,6 +50,7 @@ fn main() {
                 "flat" => flat::replay(&args[4..]),
                 _ => { eprintln!("unknown part"); std::process::exit(2) }
             },
+            "C19" => c19::replay(&args[3..]),
             _ => { eprintln!("unknown property"); std::process::exit(2) }
         },
         _ => std::process::exit(2),
